@@ -20,9 +20,51 @@ class _Normalise(ast.NodeTransformer):
     """Removes statements that cannot affect any property (logging calls) and unifies annotated local assignments with
     plain ones, so that rules are insensitive to added/removed log lines and to type annotations on locals."""
 
+    @staticmethod
+    def _pure(e) -> bool:
+        if isinstance(e, (ast.Name, ast.Constant)):
+            return True
+        if isinstance(e, ast.Attribute):
+            return _Normalise._pure(e.value)
+        if isinstance(e, (ast.Tuple, ast.List)):
+            return all(_Normalise._pure(x) for x in e.elts)
+        if isinstance(e, ast.Dict):
+            return all(k is not None and _Normalise._pure(k) for k in e.keys) and all(_Normalise._pure(v) for v in e.values)
+        return False
+
+    def _unroll_for(self, st, later):
+        """`for v in (a, b): S(v)` over a short literal sequence of side-effect-free expressions is S(a); S(b)."""
+        if not (isinstance(st, ast.For) and isinstance(st.target, ast.Name) and not st.orelse and isinstance(st.iter, (ast.Tuple, ast.List))
+                and len(st.iter.elts) <= 6 and all(self._pure(x) for x in st.iter.elts)):
+            return None
+        var = st.target.id
+        for b in st.body:
+            for n in ast.walk(b):
+                if isinstance(n, (ast.Break, ast.Continue, ast.Lambda, ast.FunctionDef, ast.AsyncFunctionDef, ast.ClassDef, ast.Return, ast.NamedExpr)):
+                    return None
+                if isinstance(n, ast.Name) and n.id == var and not isinstance(n.ctx, ast.Load):
+                    return None
+        if any(isinstance(n, ast.Name) and n.id == var for x in later for n in ast.walk(x)):
+            return None
+
+        class R(ast.NodeTransformer):
+            def __init__(self, val):
+                self.val = val
+
+            def visit_Name(self, n):  # noqa: N802
+                return copy.deepcopy(self.val) if n.id == var else n
+        out = []
+        for x in st.iter.elts:
+            out += [R(x).visit(copy.deepcopy(b)) for b in st.body]
+        return out or [ast.copy_location(ast.Pass(), st)]
+
     def _body(self, body):
         out = []
-        for st in body:
+        unrolled = []
+        for i, st in enumerate(body):
+            u = self._unroll_for(st, body[i + 1:])
+            unrolled += u if u is not None else [st]
+        for st in unrolled:
             if isinstance(st, ast.Expr) and isinstance(st.value, ast.Call):
                 f = st.value.func
                 if isinstance(f, ast.Attribute) and isinstance(f.value, ast.Name) and f.value.id in ("logger", "logging", "log", "_logger", "LOGGER"):
